@@ -204,6 +204,19 @@ fn apply(g: &mut Gen, mut t: Term, kind: &str) -> Term {
             t.shape = new_shape;
             t.lines.push((format!("expand {}", join(&parts)), Some(lens(&t.shape))));
         }
+        "matrixof" => {
+            // a 2-dimensional view as a matrix (row major, column major or neither) as a tensor
+            let (r, c) = if g.rng.chance(1, 3) {
+                ("row".to_string(), "column".to_string())
+            } else {
+                let r = fresh_name(g, &[]);
+                let c = fresh_name(g, &[r.clone()]);
+                (r, c)
+            };
+            t.shape = vec![(r.clone(), shape[0].1), (c.clone(), shape[1].1)];
+            let via = *g.rng.pick(&["with_names", "from", "with_names+mbox", "from+mrange", "with_names+mrange", "with_names+box"]);
+            t.lines.push((format!("matrixof {},{} via={}", r, c, via), Some(lens(&t.shape))));
+        }
         "rename" => {
             let mut pool: Vec<&str> = NAMES.to_vec();
             g.rng.shuffle(&mut pool);
@@ -295,8 +308,9 @@ fn gen_term(g: &mut Gen, depth: usize) -> Term {
     let t = gen_term(g, depth - 1);
     let d = t.shape.len();
     loop {
-        let kind = *g.rng.pick(&["range", "mask", "index", "expand", "rename", "reverse", "access", "transpose", "stack", "chain"]);
+        let kind = *g.rng.pick(&["range", "mask", "index", "expand", "rename", "reverse", "access", "transpose", "stack", "chain", "matrixof"]);
         let ok = match kind {
+            "matrixof" => d == 2,
             "index" | "chain" => d >= 1,
             "expand" | "stack" => d < 6,
             // a mask needs some dimension it can leave non empty
@@ -559,6 +573,54 @@ fn exhaustive(g: &mut Gen) {
             emit(g, &t, true, false);
             g.count("exhaustive.permutation");
         }
+        // matrix-backed over a tensor view: every 2-dimensional reordering as a matrix as a tensor
+        // (row major, column major, and neither), then renamed / reordered / transposed again
+        if d == 2 {
+            let n0 = leaf[0].0.to_string();
+            let n1 = leaf[1].0.to_string();
+            let (l0, l1) = (leaf[0].1, leaf[1].1);
+            let pre: Vec<(Vec<String>, Shape)> = vec![
+                (vec![], base.shape.clone()),
+                (vec![format!("access {},{}", n1, n0)], vec![(n1.clone(), l1), (n0.clone(), l0)]),
+                (vec![format!("transpose {},{}", n1, n0)], vec![(n0.clone(), l1), (n1.clone(), l0)]),
+                (vec![format!("access {},{}", n1, n0), format!("transpose {},{}", n0, n1)], vec![(n1.clone(), l0), (n0.clone(), l1)]),
+                (vec![format!("rename {},{}", n1, n0), format!("access {},{}", n0, n1)], vec![(n0.clone(), l1), (n1.clone(), l0)]),
+                (vec![format!("reverse {}", n0)], base.shape.clone()),
+                (vec![format!("range {}:0:{}", n0, l0)], base.shape.clone()),
+            ];
+            for (ops, sh) in &pre {
+                for via in ["with_names", "with_names+mbox", "with_names+mrange"] {
+                    for post in ["", "access y,x", "transpose y,x", "rename p,q"] {
+                        let mut t = base.clone();
+                        let mut cur = base.shape.clone();
+                        for (k, op) in ops.iter().enumerate() {
+                            if k + 1 == ops.len() {
+                                cur = sh.clone();
+                            }
+                            t = with_line(&t, op.clone(), Some(cur.clone()));
+                        }
+                        let ms: Shape = vec![("x".into(), sh[0].1), ("y".into(), sh[1].1)];
+                        t = with_line(&t, format!("matrixof x,y via={}", via), Some(ms.clone()));
+                        let fin: Shape = match post {
+                            "access y,x" => vec![ms[1].clone(), ms[0].clone()],
+                            "transpose y,x" => vec![("x".into(), ms[1].1), ("y".into(), ms[0].1)],
+                            "rename p,q" => vec![("p".into(), ms[0].1), ("q".into(), ms[1].1)],
+                            _ => ms.clone(),
+                        };
+                        if !post.is_empty() {
+                            // look at the matrix-backed view itself first
+                            t.lines.push(("layout".into(), None));
+                            t.lines.push(("memorder".into(), None));
+                            t = with_line(&t, post.to_string(), Some(fin));
+                        }
+                        g.count("exhaustive.matrixof");
+                        emit(g, &t, true, false);
+                    }
+                }
+            }
+            // names the library must refuse
+            emit(g, &with_line(&base, "matrixof x,x".into(), None), false, false);
+        }
         // 1..4 stacked sources at every position
         for n in 1..=4usize {
             for p in 0..=d + 1 {
@@ -619,7 +681,7 @@ fn malformed(g: &mut Gen) {
         "reverse a,a", "reverse zz", "reverse a,zz", "reverse a,b,c,a",
         "access a,b,b", "access a,b,zz", "access zz,a,b", "access c,c,c", "access a,b", "access b,a,a",
         "transpose a,b,b", "transpose a,zz,c", "transpose a,a,a", "transpose c,a,c",
-        "stack 1 4:s", "stack 1 0:a", "stack 1 3:c", "stack 0 0:s", "stack 2 0:s", "stack 5 0:s",
+        "matrixof x,y", "stack 1 4:s", "stack 1 0:a", "stack 1 3:c", "stack 0 0:s", "stack 2 0:s", "stack 5 0:s",
         "chain 1 zz", "chain 0 a", "chain 2 a",
     ];
     for b in bad {
